@@ -452,6 +452,32 @@ Theorem C02_drain_deadline_truncates_refuted :
 Proof. exact drain_deadline_truncates_refuted. Qed.
 Print Assumptions C02_drain_deadline_truncates_refuted.
 
+(* ---------------- write failures of any kind; a pending token wait and the closure ---------------- *)
+
+(* the write oracle's error flag stands for EVERY kind of Write error (plain, transient timeout, permanent timeout ...): the model
+   never reads again after a failed write, and the prefix theorems above hold for every oracle.  Refuted: going on with the
+   next read after a failed write (e.g. treating a transient write timeout like a read timeout) leaves a hole — what arrives is
+   not a prefix of what was sent *)
+Theorem C02_skip_failed_writes_not_prefix_refuted :
+  exists chunks : list (list nat * bool), forall rest, concat (map fst chunks) <> skip_failed_writes chunks ++ rest.
+Proof. exact skip_failed_writes_not_prefix_refuted. Qed.
+Print Assumptions C02_skip_failed_writes_not_prefix_refuted.
+
+(* a direction that is waiting for limiter tokens (w ticks of pacing left, any w) when the bridge is closed ends at its next
+   step: for every schedule in which the closure (thread 1) happens and the waiting direction (thread 0) gets one step
+   afterwards, it has exited — the time Start needs to return does not depend on the pacing still to do *)
+Theorem C02_cancelled_token_wait_ends_at_once :
+  forall w (s1 s2 : list nat), In 1 s1 -> In 0 s2 ->
+  nth_error (snd (wait_run CancellableWait w (s1 ++ s2))) 0 = Some WExited.
+Proof. exact cancelled_wait_ends_at_once. Qed.
+Print Assumptions C02_cancelled_token_wait_ends_at_once.
+
+(* refuted: pacing with ReserveN + Sleep — after the closure and any k < w further steps the direction is still waiting *)
+Theorem C02_sleep_wait_outlasts_closure_refuted :
+  forall w k, k < w -> nth_error (snd (wait_run SleepWait w (1 :: repeat 0 k))) 0 = Some (WWaiting (w - k)).
+Proof. exact sleep_wait_outlasts_closure_refuted. Qed.
+Print Assumptions C02_sleep_wait_outlasts_closure_refuted.
+
 (* ---------------- (4) the server forgets the tunnel ---------------- *)
 
 (* registry_forgets: any number of startSourceBridge callers, any tunnel ids (duplicates included), every interleaving
